@@ -560,6 +560,14 @@ func (e *cEnv) exec(s ast.Stmt) (ctrl, Val, error) {
 			// a counter that already depends on an unknown test stays unknown
 			return cNext, Val{}, e.assign(st.X, a, false)
 		}
+		if a.K == VRat && e.ratArith && a.R != nil {
+			// a float counter holding an exact small integer
+			d := big.NewRat(1, 1)
+			if st.Tok == token.DEC {
+				d = big.NewRat(-1, 1)
+			}
+			return cNext, Val{}, e.assign(st.X, Val{K: VRat, R: new(big.Rat).Add(a.R, d)}, false)
+		}
 		if a.K != VInt {
 			return cNext, Val{}, undecidedf(s, "++/-- on a non-integer")
 		}
